@@ -65,6 +65,12 @@ func (m *DomainMatcher) Add(labels [][]byte) {
 		if i == 0 { // is leaf
 			currentNode.AddLeaf(label)
 		} else {
+			if child, ok := currentNode.GetChild(label); ok && child == nil {
+				// This label is already a leaf: a broader entry is present and
+				// matches every name below it. Keep the leaf, do not replace it
+				// by a subtree (otherwise the broader entry would stop matching).
+				return
+			}
 			child := currentNode.GetOrAddChild(label)
 			currentNode = child
 		}
